@@ -29,8 +29,8 @@ def _concat(sc, files, name):
 
 def run(sc, tier, seed):
     R = V.Result("C12", tier, seed)
-    # this check starts ~16 JVMs; keep each of them small (other checks share the machine)
-    os.environ["JAVA_TOOL_OPTIONS"] = "-Xmx%s -XX:ParallelGCThreads=4 -XX:CICompilerCount=2" % ("4g" if tier == "quick" else "8g")
+    # small JVMs (docs/BUILDER_GUIDE.md "machine load"): at most 2 model runs + PAR validation JVMs are alive at once
+    os.environ["JAVA_TOOL_OPTIONS"] = "-Xmx%s -XX:ParallelGCThreads=2" % ("1500m" if tier == "quick" else "6g")
     V.build_harness()
     quick = tier == "quick"
     # ---- design level: every interleaving x every input x every setting inside the bound ----
@@ -40,12 +40,13 @@ def run(sc, tier, seed):
         ("UnionMC.tla", "Union_%s.cfg" % t),
         ("JoinMC.tla", "Join_%s.cfg" % t),
         ("JoinMC.tla", "JoinOn_%s.cfg" % t),
+        ("JoinMC.tla", "JoinBarrier_%s.cfg" % t),
     ]
-    # the model runs are independent: run them side by side with the drivers (2 at a time, 6 workers each)
+    # the model runs are independent: run them side by side with the drivers (2 at a time, 4 workers each)
     pool = concurrent.futures.ThreadPoolExecutor(max_workers=2)
     if os.environ.get("VERIF_C12_SKIP_MODELS"):
         models = models[:1]   # binding demonstrations on seeded changes: the design-level runs do not depend on the tree
-    futs = [(cfg, pool.submit(V.model_check, sc, SPEC, mod, cfg, 6, 2400)) for mod, cfg in models]
+    futs = [(cfg, pool.submit(V.model_check, sc, SPEC, mod, cfg, 4, 2400)) for mod, cfg in models]
 
     # ---- CircularQueue: exported, driven directly ----
     out, meta = V.run_driver(sc, "c12cq", tier, seed)
@@ -57,8 +58,12 @@ def run(sc, tier, seed):
     # ---- B3: real join/union tasks under forced arrival orders ----
     out2, meta2 = V.run_driver(sc, "c12", tier, seed)
     R.add_meta(meta2)
-    allf = _concat(sc, meta2["trace_files"], "joinunion.ndjson")
-    val2 = V.validate_traces(sc, SPEC, "JoinUnionTrace.tla", "JoinUnionTrace.cfg", [allf], parallel=PAR)
+    plain = [f for f in meta2["trace_files"] if "/barrier-" not in f]
+    barr = [f for f in meta2["trace_files"] if "/barrier-" in f]
+    allf = _concat(sc, plain, "joinunion.ndjson")
+    # barrier runs (wall-clock driven barrier nodes upstream) are validated at verdict level only
+    vfiles = [allf, _concat(sc, barr, "barrier.ndjson")] if barr else [allf]
+    val2 = V.validate_traces(sc, SPEC, "JoinUnionTrace.tla", "JoinUnionTrace.cfg", vfiles, parallel=PAR)
     R.states += val2["states"]
     R.handle_validation(val2, "join/union outputs differ from the schedule-free reference")
     # drift level: the same traces stepped through the code-shaped models (never a verdict)
